@@ -245,6 +245,7 @@ type rootDep struct {
 	Req   string
 	Dev   bool
 	Alias string // npm only: the entry is "Alias": "npm:Name@Req"
+	Opt   bool   `json:",omitempty"` // npm only: the entry sits in optionalDependencies
 }
 type e2eCase struct {
 	Eco         string // "n" npm / relax, "m" Maven / override
@@ -277,19 +278,22 @@ func parseE2E(t []string) e2eCase {
 
 func writeRoot(c e2eCase, dir string) string {
 	if c.Eco == "n" {
-		var deps, dev []string
+		var deps, dev, opt []string
 		for _, d := range c.Root {
 			e := fmt.Sprintf("    %q: %q", d.Name, d.Req)
 			if d.Alias != "" {
 				e = fmt.Sprintf("    %q: %q", d.Alias, "npm:"+d.Name+"@"+d.Req)
 			}
-			if d.Dev {
+			if d.Opt {
+				opt = append(opt, e)
+			} else if d.Dev {
 				dev = append(dev, e)
 			} else {
 				deps = append(deps, e)
 			}
 		}
-		s := "{\n  \"name\": \"root\",\n  \"version\": \"1.0.0\",\n  \"dependencies\": {\n" + strings.Join(deps, ",\n") + "\n  },\n  \"devDependencies\": {\n" + strings.Join(dev, ",\n") + "\n  }\n}\n"
+		s := "{\n  \"name\": \"root\",\n  \"version\": \"1.0.0\",\n  \"dependencies\": {\n" + strings.Join(deps, ",\n") + "\n  },\n  \"optionalDependencies\": {\n" + strings.Join(opt, ",\n") +
+			"\n  },\n  \"devDependencies\": {\n" + strings.Join(dev, ",\n") + "\n  }\n}\n"
 		p := filepath.Join(dir, "package.json")
 		must(os.WriteFile(p, []byte(s), 0o644))
 		return p
@@ -619,7 +623,27 @@ func genE2E(r *rand.Rand) e2eCase {
 	if r.Intn(3) == 0 || len(c.Root) == 0 {
 		c.Root = append(c.Root, rootDep{Name: tee, Req: req(teeVers[0])})
 	}
-	if c.Eco == "n" && r.Intn(2) == 0 {
+	if c.Eco == "n" && r.Intn(3) == 0 {
+		// the same package declared in a second section (devDependencies / optionalDependencies), with the identical or
+		// another requirement string: the reader lets the later section win, the writer must update the effective entry
+		base := c.Root[r.Intn(len(c.Root))]
+		if !base.Dev && base.Alias == "" {
+			d2 := rootDep{Name: base.Name, Req: base.Req}
+			if r.Intn(2) == 0 {
+				d2.Dev = true
+			} else {
+				d2.Opt = true
+			}
+			if r.Intn(3) == 0 {
+				for _, p := range c.Pkgs {
+					if p.Name == base.Name {
+						d2.Req = req(p.Versions[r.Intn(1+len(p.Versions)/3)])
+					}
+				}
+			}
+			c.Root = append(c.Root, d2)
+		}
+	} else if c.Eco == "n" && r.Intn(2) == 0 {
 		// the same registry package through one or two more entries (npm: aliases), at the identical range or another one
 		base := c.Root[r.Intn(len(c.Root))]
 		if !base.Dev {
